@@ -271,6 +271,10 @@ COV_PC = [(0, 0, 0, 0, 0, 0, 0, 0, 0), (0, 1, 1, 1, 1, 1, 1, 1, 1), (1, 0, 0, 0,
 PC_DOMS = [3, 2, 2, 2, 2, 2, 2, 3, 2]
 
 
+# display modes of the off-grid three-row space: (onset_only, note_separation)
+OFF3_MODES = [(0, 0), (0, 1), (1, 0)]
+
+
 def _mirror(rows, doms):
     """the covering rows plus their mirror image (value v -> dom-1-v): still all pairs, more triples."""
     out = list(rows)
@@ -341,6 +345,13 @@ def option_set(case):
         for div_i in range(3):
             for oo, sepn, tm, ks in itertools.product(range(2), repeat=4):
                 yield roll_opt((div_i, oo, sepn, 2 * tm, tm, ks, 0, 0, 0), unit=fix.get("unit", "auto"))
+    elif name == "roll-offgrid3":  # resolution x silence x display mode, complete
+        for div_i, ks, (oo, sepn) in itertools.product(range(3), range(2), OFF3_MODES):
+            yield roll_opt((div_i, oo, sepn, 0, 0, ks, 0, 0, 0), unit=fix.get("unit", "auto"))
+    elif name == "roll-offgrid3-cycled":  # resolution x silence complete, display mode cycled (start given by the case)
+        for i, (div_i, ks) in enumerate(itertools.product(range(3), range(2))):
+            oo, sepn = OFF3_MODES[(fix["rot"] + i) % len(OFF3_MODES)]
+            yield roll_opt((div_i, oo, sepn, 0, 0, ks, 0, 0, 0), unit=fix.get("unit", "auto"))
     elif name == "pc-full":
         for t in itertools.product(*[range(d) for d in PC_DOMS]):
             if t[0] != fix["div_i"]:
@@ -761,6 +772,31 @@ def gen_offgrid():
                                notes=[[p1, o1, d1, v1, None], [p2, o2, d2, v2, None]])
 
 
+OFF3_ONSETS_Q = (-6, 0, 3, 5, 11, 21, 27, 43, 58)
+OFF3_ONSETS_T = (-7, -6, 0, 3, 5, 11, 14, 21, 22, 27, 43, 45, 58)
+OFF3_DURS_Q = ((1, 1, 1), (2, 1, 1), (1, 1, 2))
+OFF3_DURS_T = tuple(itertools.product((1, 2), repeat=3))
+OFF3_PITCHES = ((60, 61, 62), (60, 60, 60))
+OFF3_VELS = ((64, 127, 1), (127, 1, 64), (None, None, None))
+OFF3_UNITS = (("score", "beat"), ("score", "quarter"), ("perf", "sec"), ("score-qd", "auto"))
+
+
+def gen_offgrid3(onsets32, durs, optset):
+    """every ordered 3-row array whose onsets are 32nds of the time unit from `onsets32` (so: rows in every order, two
+    or three notes inside one frame in either row order, the other note anywhere relative to the frame borders),
+    durations whole time units; column family / unit, velocity pattern and (quick) the first display mode are cycled."""
+    k = 0
+    for pitches in OFF3_PITCHES:
+        for du in durs:
+            for ons in itertools.product(onsets32, repeat=3):
+                fam, unit = OFF3_UNITS[k % 4]
+                vel = OFF3_VELS[k % 3]
+                rot = (k // 12) % 3
+                k += 1
+                yield dict(kind="roll", grid="raw", fam=fam, optset=optset, fix=dict(unit=unit, rot=rot),
+                           notes=[[p, "%d/32" % o, "%d/1" % d, v, None] for p, o, d, v in zip(pitches, ons, du, vel)])
+
+
 PC_EXTRA = [
     ("perf", [[60, 0, 2, 64, None], [72, 1, 2, 127, None], [48, 1, 1, 1, None]]),   # three octaves of C overlap
     ("perf", [[0, 0, 1, 3, None], [127, 0, 1, 5, None], [120, 1, 1, 7, None]]),     # lowest / highest octave (short last slice)
@@ -896,6 +932,20 @@ def spaces(tier, seed):
                     "velocity{absent,(64,127),(127,64)} in float units (beat, quarter, sec, auto) x time_div{1,2,4} x onset_only x "
                     "note_separation x time_margin(+pitch_margin 2) x remove_silence; combinations with a rounding tie or two "
                     "readings of the end frame are left out (counted in option_combinations_skipped_as_ambiguous)"))
+    off3_txt = ("ALL ordered 3-row arrays (every row order) with onsets in {%s}/32 of the time unit - not on the frame grid of "
+                "any resolution, two or three notes starting inside one frame in either row order, the earliest note listed "
+                "first, second or last, a pickup - x durations %s time units x pitch{(60,61,62),(60,60,60)}, in float units "
+                "(beat, quarter, sec, auto; cycled) with velocities (64,127,1)/(127,1,64)/absent (cycled), x time_div{1,2,4} x "
+                "remove_silence x %s; the start of the roll is the earliest onset whatever its row; combinations with a "
+                "rounding tie are left out (counted in option_combinations_skipped_as_ambiguous)")
+    if quick:
+        sp.append(Space("off-grid-three-row", lambda: gen_offgrid3(OFF3_ONSETS_Q, OFF3_DURS_Q, "roll-offgrid3-cycled"), True,
+                        off3_txt % (",".join(map(str, OFF3_ONSETS_Q)), "{(1,1,1),(2,1,1),(1,1,2)}",
+                                    "one of (plain, note_separation, onset_only) per combination, cycled so that every "
+                                    "(time_div, remove_silence, mode) triple occurs")))
+    else:
+        sp.append(Space("off-grid-three-row", lambda: gen_offgrid3(OFF3_ONSETS_T, OFF3_DURS_T, "roll-offgrid3"), True,
+                        off3_txt % (",".join(map(str, OFF3_ONSETS_T)), "{1,2}^3", "{plain, note_separation, onset_only}")))
     sp.append(Space("pitch-class-core-full-options", gen_pc_core, True,
                     "%d arrays x FULL product time_div{1,2,4} x normalize x onset_only x note_separation x time_margin x return_idxs x "
                     "remove_silence x end_time{None,last,last+1} x binary" % (len(CORE) + len(PC_EXTRA))))
